@@ -51,8 +51,8 @@ def gen_descs(rep, wd, module, cfg, label, per_op=0, exact=False, timeout=1800, 
     return out, n, len(rows)
 
 
-def run_and_validate(rep, wd, path, label, shards=12, timeout=3600, trace_module="Core/KsTrace", sub="ks"):
-    return corepipe.run_and_validate(rep, wd, path, label, shards=shards, timeout=timeout, trace_module=trace_module, sub=sub)
+def run_and_validate(rep, wd, path, label, shards=12, timeout=3600, trace_module="Core/KsTrace", sub="ks", guard=None, signals=None):
+    return corepipe.run_and_validate(rep, wd, path, label, shards=shards, timeout=timeout, trace_module=trace_module, sub=sub, guard=guard, signals=signals)
 
 
 def describe(e):
